@@ -157,6 +157,23 @@ def pickle_stream(frames, proto):
   return data
 
 
+def py2_frame(items, long_strings=False):
+  """the pickle a Python 2 sender (protocol 2) writes for [(name, (timestamp, value)), ...] with
+  `str` names: 8-bit string opcodes (SHORT_BINSTRING / BINSTRING) holding UTF-8 bytes"""
+  out = [b'\x80\x02]', b'(']
+  for (m, (t, v)) in items:
+    raw = m.encode('utf-8')
+    if long_strings or len(raw) > 255:
+      out.append(b'T' + struct.pack('<i', len(raw)) + raw)
+    else:
+      out.append(b'U' + bytes([len(raw)]) + raw)
+    for x in (t, v):
+      out.append(b'G' + struct.pack('>d', float(x)))
+    out.append(b'\x86\x86')
+  out.append(b'e.')
+  return b''.join(out)
+
+
 def batches(items, rnd):
   out, i = [], 0
   while i < len(items):
@@ -209,7 +226,12 @@ def sweep_c01(n, seed):
     # pickle
     proto = rnd.choice([0, 1, 2, 3, 4])
     frames = [[(m, (t, v)) for (m, t, v) in b] for b in batches(dps, rnd)]
-    data = pickle_stream(frames, proto)
+    if rnd.random() < 0.3:
+      # a Python 2 sender: names travel as 8-bit strings (UTF-8 bytes)
+      proto = 'py2-protocol-2' + rnd.choice(['', '-BINSTRING'])
+      data = pickle_stream([py2_frame(fr, proto.endswith('BINSTRING')) for fr in frames], 2)
+    else:
+      data = pickle_stream(frames, proto)
     segs = segments(data, rnd)
     pause_at = rnd.choice([None, None] + list(range(1, len(dps) + 1)))
     settings.USE_FLOW_CONTROL = pause_at is not None
@@ -375,8 +397,11 @@ class FakeTime(object):
     return self.now
 
 
-LISTS = [[], ['^a\\.'], ['cpu', '^x$'], ['# comment', '', '^servers\\.'], ['(unclosed', 'load$'], ['.*'], ['^$'], ['\\.b\\.'], ['[0-9]+$']]
-NAMES12 = ['a.b', 'a.b.c', 'x', 'servers.web.cpu', 'servers.web.load', 'xx', 'cpu', 'm.7', 'A.B', u'caf\xe9.b.z']
+LISTS = [[], ['^a\\.'], ['cpu', '^x$'], ['# comment', '', '^servers\\.'], ['(unclosed', 'load$'], ['.*'], ['^$'], ['\\.b\\.'], ['[0-9]+$'],
+         # each line is a pattern of its own: group numbers, backreferences and inline flags are per line
+         ['^(q|r)\\.', '\\.(\\w+)\\.\\1$'], ['(?i)^scratch\\.', '^Prod\\.debug\\.'], ['^servers\\.(?P<h>\\w+)\\.', '(?P<h>x)x']]
+NAMES12 = ['a.b', 'a.b.c', 'x', 'servers.web.cpu', 'servers.web.load', 'xx', 'cpu', 'm.7', 'A.B', u'caf\xe9.b.z',
+           'm.dup.dup', 'q.dup.dup', 'prod.debug.x', 'Prod.debug.x', 'SCRATCH.y']
 TS12 = [-1, -1.0, 0, 1, 59, 60, 61, 1700000000, 1700000007.75, -1.5, -3.5, 0.5, -2, 119.999, 10, 9.99]
 VAL12 = [0.0, 1.5, float('nan'), float('inf'), float('-inf'), -3, 2 ** 60]
 
